@@ -406,3 +406,471 @@ def enclosing_iterations(n: ast.AST, stop: ast.AST | None = None):
                 if child is not g:
                     yield a, g.target, g.iter
         child = a
+
+
+# ----------------------------------------------------------------------------------------------------
+# generator-based context managers spliced into the `with` statements that run under them
+# ----------------------------------------------------------------------------------------------------
+
+def set_parents(root: ast.AST) -> ast.AST:
+    """(re)hang the `_parent` links of a sub-tree that was built or rearranged by a rule; the root keeps its own"""
+    for n in ast.walk(root):
+        for ch in ast.iter_child_nodes(n):
+            if not isinstance(ch, (ast.expr_context, ast.operator, ast.unaryop, ast.cmpop, ast.boolop)):
+                ch._parent = n  # type: ignore[attr-defined]
+    return root
+
+
+def is_generator_manager(fn: ast.AST) -> bool:
+    """a function decorated with `contextlib.contextmanager` (and nothing else)"""
+    if not isinstance(fn, ast.FunctionDef) or len(fn.decorator_list) != 1:
+        return False
+    d = fn.decorator_list[0]
+    return (dotted_name(d) or '').split('.')[-1] == 'contextmanager'
+
+
+def _manager_yield(mgr: ast.FunctionDef):
+    """the single statement-level `yield` of a generator-based context manager, or None when the manager has a shape
+    whose splice would not be faithful: several yields, `yield from`, a yield inside a loop or an expression, a
+    `return`, nested definitions, `global` / `nonlocal`"""
+    ys = []
+    for x in ast.walk(mgr):
+        if x is not mgr and isinstance(x, (ast.FunctionDef, ast.AsyncFunctionDef, ast.ClassDef, ast.Lambda)):
+            return None
+        if isinstance(x, (ast.YieldFrom, ast.Await, ast.Return, ast.Global, ast.Nonlocal)):
+            return None
+        if isinstance(x, ast.Yield):
+            ys.append(x)
+    if len(ys) != 1:
+        return None
+    y = ys[0]
+    st = getattr(y, '_parent', None)
+    if not (isinstance(st, ast.Expr) or (isinstance(st, ast.Assign) and st.value is y)):
+        return None
+    for a in ancestors(st):
+        if a is mgr:
+            break
+        if isinstance(a, (ast.For, ast.AsyncFor, ast.While)):
+            return None
+    return st
+
+
+def _bind_manager_arguments(mgr: ast.FunctionDef, call: ast.Call, receiver: ast.expr | None = None):
+    """parameter -> argument expression of `mgr(...)` as written at the call (defaults filled in; `receiver` = the
+    object a method is called on, bound to its first parameter); None when the binding cannot be read off (star
+    arguments, unknown keywords, missing arguments)"""
+    a = mgr.args
+    if any(isinstance(x, ast.Starred) for x in call.args) or a.vararg is not None:
+        return None
+    pos = [p.arg for p in a.posonlyargs + a.args]
+    given = ([receiver] if receiver is not None else []) + list(call.args)
+    if len(given) > len(pos):
+        return None
+    bound = {p: v for p, v in zip(pos, given)}
+    star = [k.value for k in call.keywords if k.arg is None]
+    for k in call.keywords:
+        if k.arg is None:
+            continue
+        if k.arg in bound or k.arg not in [p.arg for p in a.args + a.kwonlyargs]:
+            return None
+        bound[k.arg] = k.value
+    if star:
+        # `**name` handed on whole into the manager's own `**name`
+        if a.kwarg is None or len(star) != 1 or not isinstance(star[0], ast.Name):
+            return None
+        bound[a.kwarg.arg] = star[0]
+    elif a.kwarg is not None:
+        bound[a.kwarg.arg] = ast.Dict(keys=[], values=[])
+    defaults = dict(zip(reversed([p.arg for p in a.posonlyargs + a.args]), reversed(a.defaults)))
+    defaults.update({p.arg: d for p, d in zip(a.kwonlyargs, a.kw_defaults) if d is not None})
+    for p in [x.arg for x in a.posonlyargs + a.args + a.kwonlyargs]:
+        if p not in bound:
+            if p not in defaults or star:
+                return None
+            bound[p] = defaults[p]
+    return bound
+
+
+class _ManagerNames(ast.NodeTransformer):
+    def __init__(self, subst: dict, rename: dict):
+        self.subst, self.rename = subst, rename
+
+    def visit_Name(self, n: ast.Name):
+        if n.id in self.subst and isinstance(n.ctx, ast.Load):
+            import copy
+            return ast.copy_location(copy.deepcopy(self.subst[n.id]), n)
+        if n.id in self.rename:
+            return ast.copy_location(ast.Name(self.rename[n.id], n.ctx), n)
+        return n
+
+    def visit_ExceptHandler(self, h: ast.ExceptHandler):
+        if h.name in self.rename:
+            h.name = self.rename[h.name]
+        return self.generic_visit(h)
+
+
+def splice_generator_managers(fn: ast.AST, resolve, max_rounds: int = 4):
+    """`with cm(args) [as v]: BODY` where `cm` is a generator-based context manager of the program - `resolve(call)`
+    returns (its FunctionDef, a tag, the receiver expression of a method call | None) or None - is what the interpreter runs as the manager's body with BODY in the
+    place of its `yield`: an exception of BODY is thrown into the generator at the yield, so the manager's `try` /
+    `except` / `finally` around the yield protect BODY exactly as if it stood there, and what the manager does before
+    the yield (`__enter__`) and after it (`__exit__`) runs in the caller's flow.  Returns (a copy of `fn` with every such
+    `with` replaced by that splice, the tags of the managers spliced); (`fn` itself, []) when there is none.
+    The manager's parameters are replaced by the arguments when these are plain names neither side rebinds (so that
+    `builder.ctx` of the manager reads `self.ctx` in a method that passes `self`), otherwise bound by an assignment
+    first; its locals get the manager's name as a suffix.  Every statement taken from the manager carries
+    `_from_manager = tag`.  Managers of a shape for which this would not be faithful (see `_manager_yield`) are left
+    alone."""
+    import copy
+    done = []
+    out = fn
+    for _ in range(max_rounds):
+        hit = None
+        for w in walk_no_nested(out):
+            if not isinstance(w, ast.With) or not w.items:
+                continue
+            it = w.items[0]
+            if not isinstance(it.context_expr, ast.Call):
+                continue
+            r = resolve(it.context_expr)
+            if r is None:
+                continue
+            mgr, tag, receiver = r
+            if not is_generator_manager(mgr) or _manager_yield(mgr) is None:
+                continue
+            bound = _bind_manager_arguments(mgr, it.context_expr, receiver)
+            if bound is None:
+                continue
+            hit = (w, it, mgr, tag, bound)
+            break
+        if hit is None:
+            break
+        if out is fn:
+            # work on a copy; find the same `with` again in it
+            idx = [i for i, x in enumerate(walk_no_nested(fn)) if x is hit[0]][0]
+            out = copy.deepcopy(fn)
+            w = [x for x in walk_no_nested(out)][idx]
+            it = w.items[0]
+            hit = (w, it) + hit[2:]
+        w, it, mgr, tag, bound = hit
+        body_stores = {x.id for s in w.body for x in ast.walk(s) if isinstance(x, ast.Name)
+                       and isinstance(x.ctx, (ast.Store, ast.Del))}
+        mgr_stores = {x.id for x in ast.walk(mgr) if isinstance(x, ast.Name) and isinstance(x.ctx, (ast.Store, ast.Del))}
+        mgr_stores |= {h.name for h in ast.walk(mgr) if isinstance(h, ast.ExceptHandler) and h.name}
+        subst, pre, rename = {}, [], {}
+        for p, v in bound.items():
+            plain = isinstance(v, ast.Constant) or (isinstance(v, ast.Name) and v.id not in body_stores)
+            if plain and p not in mgr_stores:
+                subst[p] = v
+            else:
+                rename[p] = f'{p}__{mgr.name}'
+                asg = ast.Assign(targets=[ast.Name(rename[p], ast.Store())], value=copy.deepcopy(v))
+                pre.append(ast.copy_location(asg, w))
+        for nm in mgr_stores:
+            rename.setdefault(nm, f'{nm}__{mgr.name}')
+        m2 = copy.deepcopy(mgr)
+        set_parents(m2)
+        yst = _manager_yield(m2)
+        # the yield becomes: [v = <value>]; BODY [; rest of the `with` items around it]
+        m2 = _ManagerNames(subst, rename).visit(m2)
+        yv = yst.value.value if isinstance(yst.value, ast.Yield) else None
+        ast.fix_missing_locations(m2)
+        for s in ast.walk(m2):
+            if isinstance(s, (ast.stmt, ast.ExceptHandler)):
+                s._from_manager = tag  # type: ignore[attr-defined]
+        repl = []
+        if it.optional_vars is not None:
+            val = yv if yv is not None else ast.Constant(None)
+            asg = ast.copy_location(ast.Assign(targets=[it.optional_vars], value=val), yst)
+            asg._from_manager = tag  # type: ignore[attr-defined]
+            repl.append(asg)
+        elif yv is not None and not isinstance(yv, (ast.Name, ast.Constant)):
+            ev = ast.copy_location(ast.Expr(value=yv), yst)
+            ev._from_manager = tag  # type: ignore[attr-defined]
+            repl.append(ev)
+        if isinstance(yst, ast.Assign):
+            sent = ast.copy_location(ast.Assign(targets=yst.targets, value=ast.Constant(None)), yst)
+            sent._from_manager = tag  # type: ignore[attr-defined]
+        else:
+            sent = None
+        inner = w.body if len(w.items) == 1 else [ast.copy_location(
+            ast.With(items=w.items[1:], body=w.body, type_comment=None), w)]
+        repl += inner
+        if sent is not None:
+            repl.append(sent)
+        _replace_stmt(m2, yst, repl)
+        mbody = list(m2.body)
+        if mbody and isinstance(mbody[0], ast.Expr) and isinstance(mbody[0].value, ast.Constant) \
+                and isinstance(mbody[0].value.value, str):
+            mbody = mbody[1:]
+        _replace_stmt(out, w, pre + mbody)
+        _propagate_manager_aliases(out, f'__{mgr.name}')
+        ast.fix_missing_locations(out)
+        set_parents(out)
+        done.append(tag)
+    return out, done
+
+
+def _replace_stmt(root: ast.AST, old: ast.stmt, new: list) -> None:
+    for n in ast.walk(root):
+        for f in ('body', 'orelse', 'finalbody'):
+            b = getattr(n, f, None)
+            if isinstance(b, list):
+                for i, s in enumerate(b):
+                    if s is old:
+                        b[i:i + 1] = new
+                        return
+    raise ValueError('statement to replace not found')
+
+
+# ----------------------------------------------------------------------------------------------------
+# class-based context managers spliced into the `with` statements that run under them
+# ----------------------------------------------------------------------------------------------------
+
+class _ManagerFields(ast.NodeTransformer):
+    """`self.f` of a manager object -> the argument its constructor was given for f, or a local of the caller"""
+
+    def __init__(self, me: str, subst: dict, local: dict, rename: dict):
+        self.me, self.subst, self.local, self.rename = me, subst, local, rename
+
+    def visit_Attribute(self, n: ast.Attribute):
+        if isinstance(n.value, ast.Name) and n.value.id == self.me:
+            if n.attr in self.subst and isinstance(n.ctx, ast.Load):
+                import copy
+                return ast.copy_location(copy.deepcopy(self.subst[n.attr]), n)
+            if n.attr in self.local:
+                return ast.copy_location(ast.Name(self.local[n.attr], n.ctx), n)
+        return self.generic_visit(n)
+
+    def visit_Name(self, n: ast.Name):
+        if n.id in self.rename:
+            return ast.copy_location(ast.Name(self.rename[n.id], n.ctx), n)
+        return n
+
+    def visit_ExceptHandler(self, h: ast.ExceptHandler):
+        if h.name in self.rename:
+            h.name = self.rename[h.name]
+        return self.generic_visit(h)
+
+
+def _plain_body(fn: ast.FunctionDef):
+    """body without the docstring; None when the function has a shape that cannot be spliced (nested definitions,
+    generators, global / nonlocal)"""
+    for x in ast.walk(fn):
+        if x is not fn and isinstance(x, (ast.FunctionDef, ast.AsyncFunctionDef, ast.ClassDef, ast.Lambda)):
+            return None
+        if isinstance(x, (ast.Yield, ast.YieldFrom, ast.Await, ast.Global, ast.Nonlocal)):
+            return None
+    body = list(fn.body)
+    if body and isinstance(body[0], ast.Expr) and isinstance(body[0].value, ast.Constant) \
+            and isinstance(body[0].value.value, str):
+        body = body[1:]
+    return body
+
+
+def _trailing_return(body: list):
+    """(body without a trailing top-level `return`, its value | None, ok): ok is False when a `return` stands anywhere
+    else"""
+    val = None
+    if body and isinstance(body[-1], ast.Return):
+        val, body = body[-1].value, body[:-1]
+        if val is None:
+            val = ast.Constant(None)
+    for s in body:
+        for x in ast.walk(s):
+            if isinstance(x, ast.Return):
+                return body, val, False
+    return body, val, True
+
+
+def splice_class_managers(fn: ast.AST, resolve, max_rounds: int = 4):
+    """`with C(args) [as v]: BODY` where C is a class of the program with `__enter__` / `__exit__` - `resolve(call)`
+    returns (constructor FunctionDef | None, field names in constructor order when there is no written constructor,
+    `__enter__` FunctionDef, `__exit__` FunctionDef, tag) or None - is what the interpreter runs as
+
+        <fields of the manager object bound to the constructor arguments>
+        <body of __enter__>; v = <what it returns>
+        try: BODY
+        finally: <body of __exit__>
+
+    (`__exit__` is not run when `__enter__` raised; an `__exit__` that ends in `return True` swallows whatever BODY
+    raised: `try: BODY / except BaseException: pass / finally: <body of __exit__>`).  The constructor must only
+    store its parameters in fields (`self.f = p`) or be generated from the annotated fields (dataclass); `__exit__` must
+    not look at the exception it is given; `return` only as the last statement of `__enter__` / `__exit__`.  Fields
+    become the constructor arguments when these are plain names neither side rebinds, else locals named
+    `<field>__<class>`.  Every statement taken from the manager carries `_from_manager = tag`.  Returns (copy of `fn`
+    with the splices, tags); (`fn`, []) when there is none."""
+    import copy
+    done = []
+    out = fn
+    for _ in range(max_rounds):
+        hit = None
+        for w in walk_no_nested(out):
+            if not isinstance(w, ast.With) or not w.items or not isinstance(w.items[0].context_expr, ast.Call):
+                continue
+            r = resolve(w.items[0].context_expr)
+            if r is None:
+                continue
+            plan = _class_manager_plan(w, *r[:4])
+            if plan is None:
+                continue
+            hit = (w, plan, r[4])
+            break
+        if hit is None:
+            break
+        if out is fn:
+            idx = [i for i, x in enumerate(walk_no_nested(fn)) if x is hit[0]][0]
+            out = copy.deepcopy(fn)
+            w = [x for x in walk_no_nested(out)][idx]
+            r = resolve(hit[0].items[0].context_expr)
+            hit = (w, _class_manager_plan(w, *r[:4]), r[4])
+        w, (pre, enter, enter_val, exit_body, swallow), tag = hit
+        exit_ = resolve(w.items[0].context_expr)[3]
+        it = w.items[0]
+        stmts = list(pre) + list(enter)
+        if it.optional_vars is not None:
+            stmts.append(ast.copy_location(ast.Assign(targets=[it.optional_vars], value=enter_val or ast.Constant(None)), w))
+        inner = w.body if len(w.items) == 1 else [ast.copy_location(
+            ast.With(items=w.items[1:], body=w.body, type_comment=None), w)]
+        if swallow:
+            # whatever BODY raised is gone once `__exit__` has run (which it does on every way out of BODY)
+            h = ast.copy_location(ast.ExceptHandler(type=ast.Name('BaseException', ast.Load()), name=None,
+                                                    body=[ast.copy_location(ast.Pass(), exit_)]), exit_)
+            tr = ast.Try(body=inner, handlers=[h], orelse=[], finalbody=exit_body or [ast.Pass()])
+        else:
+            tr = ast.Try(body=inner, handlers=[], orelse=[], finalbody=exit_body or [ast.Pass()])
+        ast.copy_location(tr, w)
+        for s in stmts + exit_body + ([tr.handlers[0]] if swallow else []):
+            for x in ast.walk(s):
+                if isinstance(x, (ast.stmt, ast.ExceptHandler)):
+                    x._from_manager = tag  # type: ignore[attr-defined]
+        _replace_stmt(out, w, stmts + [tr])
+        _propagate_manager_aliases(out, '__' + (dotted_name(it.context_expr.func) or 'manager').split('.')[-1])
+        ast.fix_missing_locations(out)
+        set_parents(out)
+        done.append(tag)
+    return out, done
+
+
+def _class_manager_plan(w: ast.With, init, field_order, enter, exit_):
+    """(statements binding the fields, body of __enter__, value it returns, body of __exit__, swallows) with the
+    manager object's fields resolved - None when the manager cannot be spliced faithfully"""
+    import copy
+    call = w.items[0].context_expr
+    if not isinstance(enter, ast.FunctionDef) or not isinstance(exit_, ast.FunctionDef) \
+            or enter.decorator_list or exit_.decorator_list:
+        return None
+    cname = dotted_name(call.func) or 'manager'
+    cname = cname.split('.')[-1]
+    # field -> constructor argument
+    if init is not None:
+        if init.decorator_list or not init.args.args:
+            return None
+        ibody = _plain_body(init)
+        if ibody is None:
+            return None
+        bound = _bind_manager_arguments(init, call, ast.Name('<self>', ast.Load()))
+        if bound is None:
+            return None
+        me0 = init.args.args[0].arg
+        fields = {}
+        for s in ibody:
+            if not (isinstance(s, (ast.Assign, ast.AnnAssign)) and (len(s.targets) == 1 if isinstance(s, ast.Assign) else True)):
+                return None
+            t = s.targets[0] if isinstance(s, ast.Assign) else s.target
+            v = s.value
+            if not (isinstance(t, ast.Attribute) and isinstance(t.value, ast.Name) and t.value.id == me0
+                    and isinstance(v, ast.Name) and v.id in bound and v.id != me0) or t.attr in fields:
+                return None
+            fields[t.attr] = bound[v.id]
+    else:
+        if any(isinstance(x, ast.Starred) for x in call.args) or any(k.arg is None for k in call.keywords) \
+                or len(call.args) > len(field_order):
+            return None
+        fields = dict(zip(field_order, call.args))
+        for k in call.keywords:
+            if k.arg in fields or k.arg not in field_order:
+                return None
+            fields[k.arg] = k.value
+    body_stores = {x.id for s in w.body for x in ast.walk(s) if isinstance(x, ast.Name)
+                   and isinstance(x.ctx, (ast.Store, ast.Del))}
+    parts = []
+    stored_fields = set()
+    xa = exit_.args
+    if xa.kwarg or xa.kwonlyargs or not ((len(xa.args) == 4 and xa.vararg is None) or (len(xa.args) == 1 and xa.vararg)):
+        return None
+    ea = enter.args
+    if len(ea.args) != 1 or ea.vararg or ea.kwarg or ea.kwonlyargs:
+        return None
+    # __exit__ must not look at the exception it is given
+    ex_names = {p.arg for p in xa.args[1:]} | ({xa.vararg.arg} if xa.vararg else set())
+    if any(isinstance(x, ast.Name) and x.id in ex_names for s in exit_.body for x in ast.walk(s)):
+        return None
+    for f in (enter, exit_):
+        b = _plain_body(f)
+        if b is None:
+            return None
+        me = f.args.args[0].arg
+        for x in ast.walk(f):
+            if isinstance(x, ast.Name) and x.id == me:
+                par = getattr(x, '_parent', None)
+                if not (isinstance(par, ast.Attribute) and par.value is x):
+                    # the object itself escapes: only `return self` of an `__enter__` whose result nobody binds
+                    if not (f is enter and isinstance(par, ast.Return) and w.items[0].optional_vars is None):
+                        return None
+            if isinstance(x, ast.Attribute) and isinstance(x.value, ast.Name) and x.value.id == me \
+                    and isinstance(x.ctx, (ast.Store, ast.Del)):
+                stored_fields.add(x.attr)
+        parts.append((f, me, b))
+    subst, local, pre = {}, {}, []
+    for fld, v in fields.items():
+        plain = isinstance(v, ast.Constant) or (isinstance(v, ast.Name) and v.id not in body_stores)
+        if plain and fld not in stored_fields:
+            subst[fld] = v
+        else:
+            local[fld] = f'{fld}__{cname}'
+            pre.append(ast.copy_location(ast.Assign(targets=[ast.Name(local[fld], ast.Store())], value=copy.deepcopy(v)), w))
+    for fld in stored_fields:
+        local.setdefault(fld, f'{fld}__{cname}')
+    out = []
+    for f, me, b in parts:
+        names = {x.id for x in ast.walk(f) if isinstance(x, ast.Name) and isinstance(x.ctx, (ast.Store, ast.Del))}
+        names |= {h.name for h in ast.walk(f) if isinstance(h, ast.ExceptHandler) and h.name}
+        rename = {nm: f'{nm}__{cname}' for nm in names}
+        b2 = [_ManagerFields(me, subst, local, rename).visit(copy.deepcopy(s)) for s in b]
+        b2, val, ok = _trailing_return(b2)
+        if not ok:
+            return None
+        out.append((b2, val))
+    (enter_body, enter_val), (exit_body, exit_val) = out
+    if isinstance(enter_val, ast.Name) and enter_val.id == parts[0][1]:
+        enter_val = None   # `return self`, bound by nobody (checked above)
+    if exit_val is None or (isinstance(exit_val, ast.Constant) and not exit_val.value):
+        swallow = False
+    elif isinstance(exit_val, ast.Constant) and exit_val.value is True:
+        swallow = True
+    else:
+        return None
+    return pre, enter_body, enter_val, exit_body, swallow
+
+
+def _propagate_manager_aliases(fn: ast.AST, suffix: str) -> None:
+    """`x__<manager> = y` - a local the splice of a manager introduced, bound once, to a plain name that the function
+    never rebinds (`builder = self.builder` of a manager object whose field is the caller's `self`): read y for it"""
+    stores = {}
+    for x in walk_no_nested(fn):
+        if isinstance(x, ast.Name) and isinstance(x.ctx, (ast.Store, ast.Del)):
+            stores[x.id] = stores.get(x.id, 0) + 1
+    params = set()
+    if isinstance(fn, (ast.FunctionDef, ast.AsyncFunctionDef)):
+        a = fn.args
+        params = {p.arg for p in a.posonlyargs + a.args + a.kwonlyargs}
+    for st in list(walk_no_nested(fn)):
+        if isinstance(st, ast.Assign) and len(st.targets) == 1 and isinstance(st.targets[0], ast.Name) \
+                and st.targets[0].id.endswith(suffix) and stores.get(st.targets[0].id) == 1 \
+                and isinstance(st.value, ast.Name) and stores.get(st.value.id, 0) == 0 and st.value.id in params:
+            a, b = st.targets[0].id, st.value.id
+            for x in walk_no_nested(fn):
+                if isinstance(x, ast.Name) and x.id == a and isinstance(x.ctx, ast.Load):
+                    x.id = b
+            _replace_stmt(fn, st, [])
